@@ -189,6 +189,7 @@ type Parser struct {
 	prefix    string
 	currFunc  string
 	usedFuncs map[string][]string // Stores which function (key) calls which functions (values).
+	importing []string            // Stores the files whose imports are currently being evaluated.
 }
 
 func New() Parser {
@@ -702,7 +703,12 @@ func (p *Parser) evaluateImports(ctx context) ([]Statement, error) {
 				// If it's not a standard library path, an alias must be provided.
 				return nil, fmt.Errorf(`an alias must be provided for the local import "%s" in "%s"`, path, p.path)
 			}
+			// Files must not import each other (directly or indirectly).
+			if absPath == p.path || slices.Contains(p.importing, absPath) {
+				return nil, fmt.Errorf(`import cycle: "%s" is imported again from "%s"`, absPath, p.path)
+			}
 			importParser := New()
+			importParser.importing = append(slices.Clone(p.importing), p.path)
 			importedProg, err := importParser.parse(absPath, true)
 
 			if err != nil {
